@@ -274,6 +274,8 @@ func (e *Engine) verifyFunction(ct *Contract, prop string, tier string) *fnResul
 	var vcs []vc
 	mustfailSeen := map[string]bool{}
 	e.curFn = ct.Fn
+	e.callbacksWriteDB = false
+	e.dbErrors = true
 	e.reachCount = nil
 	e.unmodelled = map[string]int{}
 	for _, variant := range variants {
@@ -785,6 +787,8 @@ func (e *Engine) applyFlag(st *State, k, v string) {
 	switch k {
 	case "nodberr":
 		e.dbErrors = false
+	case "callbacks":
+		e.callbacksWriteDB = v == "writedb"
 	}
 }
 
@@ -888,37 +892,7 @@ func (e *Engine) instantiateAll(st *State, pre *State, goals []Term) {
 	if pre == nil {
 		pre = st
 	}
-	// quantified facts over other sorts: instantiate on every declared constant of the sort (+ string literals)
-	for round := 0; round < 2; round++ {
-		for sortName, fs := range st.inst {
-			var terms []Term
-			seenT := map[string]bool{}
-			for _, ds := range [][]string{st.decls, pre.decls} {
-				for _, d := range ds {
-					if strings.HasSuffix(d, " "+sortName+")") {
-						name := strings.Fields(d)[1]
-						if !seenT[name] {
-							seenT[name] = true
-							terms = append(terms, mkT(name, canonSort(sortName)))
-						}
-					}
-				}
-			}
-			if sortName == "Str" {
-				for _, lit := range e.strOrder {
-					terms = append(terms, mkT(e.strLits[lit], SStr))
-				}
-			}
-			for _, f := range fs {
-				for _, t := range terms {
-					st.fact(f(st, t))
-				}
-			}
-		}
-	}
-	if len(st.bulk) == 0 {
-		return
-	}
+	// DocId terms of the obligation: every (mkId ..) term in the path condition or a goal, plus declared constants
 	seen := map[string]bool{}
 	var idx []Term
 	scan := func(s string) {
@@ -941,18 +915,61 @@ func (e *Engine) instantiateAll(st *State, pre *State, goals []Term) {
 				}
 			}
 			t := s[i : j+1]
-			if !seen[t] {
+			if !seen[t] && !strings.Contains(t, "q!") {
 				seen[t] = true
 				idx = append(idx, mkT(t, SDocId))
 			}
 			off = i + 6
 		}
 	}
-	for _, c := range st.pc {
-		scan(c.S)
+	collectIdx := func() {
+		for _, c := range st.pc {
+			scan(c.S)
+		}
+		for _, g := range goals {
+			scan(g.S)
+		}
 	}
-	for _, g := range goals {
-		scan(g.S)
+	collectIdx()
+	// quantified facts: instantiate on every declared constant of the sort (+ string literals, + DocId terms)
+	for round := 0; round < 2; round++ {
+		for sortName, fs := range st.inst {
+			var terms []Term
+			seenT := map[string]bool{}
+			for _, ds := range [][]string{st.decls, pre.decls} {
+				for _, d := range ds {
+					if strings.HasSuffix(d, " "+sortName+")") {
+						name := strings.Fields(d)[1]
+						if !seenT[name] {
+							seenT[name] = true
+							terms = append(terms, mkT(name, canonSort(sortName)))
+						}
+					}
+				}
+			}
+			if sortName == "Str" {
+				for _, lit := range e.strOrder {
+					terms = append(terms, mkT(e.strLits[lit], SStr))
+				}
+			}
+			if sortName == "DocId" {
+				for _, t := range idx {
+					if !seenT[t.S] {
+						seenT[t.S] = true
+						terms = append(terms, t)
+					}
+				}
+			}
+			for _, f := range fs {
+				for _, t := range terms {
+					st.fact(f(st, t))
+				}
+			}
+		}
+		collectIdx()
+	}
+	if len(st.bulk) == 0 {
+		return
 	}
 	for _, ds := range [][]string{st.decls, pre.decls} {
 		for _, d := range ds {
